@@ -251,6 +251,7 @@ func ruleHash(state *core.BuildState, target *core.BuildTarget, runtime bool) []
 		if target.IsTest() {
 			hashStrings(h, target.Test.Outputs)
 			hashBool(h, target.Test.Sandbox)
+			hashBool(h, target.Test.NoOutput)
 			hashString(h, target.GetTestCommand(state))
 			hashString(h, target.Test.ArgsPlaceholder)
 			hashNamedInputs(h, target.NamedTestTools())
